@@ -95,12 +95,10 @@ def rfc2617_verify(fields, method, body, cfg, genuine, now):
 # ----------------------------------------------------------------------------------------------
 # Basic
 # ----------------------------------------------------------------------------------------------
-def basic_ok_logins(raws, cfg):
-    """Logins the property allows for a header whose base64 payload is one of `raws` (bytes as latin-1 str):
-    some accepted decoding (UTF-8 or ISO-8859-1), optionally NFC-normalised, splits at the first colon into a
-    user of the store and exactly that user's non-empty password."""
-    store = {u: p for u, p in cfg['users']}
-    ok = set()
+def basic_readings(raws):
+    """What the sent payload says, per RFC 7617: the bytes in an accepted charset (UTF-8 or ISO-8859-1), normalised
+    with NFC - and with nothing else - then cut at the first colon.  One (user, password) per legitimate reading."""
+    out = set()
     for raw in raws or []:
         b = raw.encode('latin-1')
         for dec in ('utf-8', 'latin-1'):
@@ -108,12 +106,17 @@ def basic_ok_logins(raws, cfg):
                 s = b.decode(dec)
             except UnicodeDecodeError:
                 continue
-            for t in (s, unicodedata.normalize('NFC', s)):
-                if ':' in t:
-                    u, p = t.split(':', 1)
-                    if p != '' and store.get(u) == p:
-                        ok.add(u)
-    return ok
+            t = unicodedata.normalize('NFC', s)
+            if ':' in t:
+                out.add(tuple(t.split(':', 1)))
+    return out
+
+
+def basic_ok_logins(raws, cfg):
+    """Logins the property allows for a header whose base64 payload is one of `raws` (bytes as latin-1 str): a
+    reading (see basic_readings) names a user of the store and exactly that user's non-empty password."""
+    store = {u: p for u, p in cfg['users']}
+    return {u for u, p in basic_readings(raws) if p != '' and store.get(u) == p}
 
 
 def nfc_table(header, pycodec):
@@ -223,9 +226,51 @@ def text_class(s):
 USERS = ['alice', 'bob', 'Carol', 'ren\xe9', 'J\xfcrgen\xdf', 'u\U0001F600ser', 'αβγ', 'bo"b', 'back\\slash',
          'a b', 'co:lon', 'éve', '\xe9ve', 'x', '\xc3\xa9', 'comma,user', 'eq=user', 'O\'Neil', '中文',
          'ad\xadmin', '\U00010400\U00010428']
+# compatibility characters (NFC leaves them alone, NFKC / NFKD / casefold do not) and canonical twins (NFC unifies
+# them): each entry is (credentials with the special characters, their look-alike)
+TWINS = [
+    (('\ufb01ona', '\ufb01-pass\xb2'), ('fiona', 'fi-pass2')),                   # ligature fi, superscript two
+    (('\xb5ser', 'x\xb2+\xb5'), ('\u03bcser', 'x2+\u03bc')),                   # micro sign vs Greek mu (Latin-1!)
+    (('\uff55\uff53\uff45\uff52\uff11', '\uff50\uff57\uff11'), ('user1', 'pw1')),      # fullwidth
+    (('\u210cans', '\u2167\u338f\u210c'), ('Hans', 'VIIIkgH')),                # black-letter H, Roman numeral, kg
+    (('\ufb02ag', '\ufb02ag\xb3'), ('flag', 'flag3')),
+    (('\xc5sa', 'caf\xe9!'), ('A\u030asa', 'cafe\u0301!')),                    # NFC form stored / NFD form stored
+    (('\u212bngstr\xf6m', 'pw\u212b'), ('\xc5ngstr\xf6m', 'pw\xc5')),            # Angstrom sign (canonical singleton)
+    (('Stra\xdfe', 'Stra\xdfe'), ('STRASSE', 'strasse')),                       # case folding
+    (('nb\xa0sp', 'p\xa0w'), ('nb sp', 'p w')),                                 # no-break space
+    (('wide\uff1acolon', 'p\uff1aw'), ('wide', 'colon')),                       # fullwidth colon
+]
+_FOLD = [('fi', '\ufb01'), ('fl', '\ufb02'), ('ff', '\ufb00'), ('1', '\xb9'), ('2', '\xb2'), ('3', '\xb3'),
+         ('\xb5', '\u03bc'), ('\u03bc', '\xb5'), ('H', '\u210c'), ('kg', '\u338f'), ('VIII', '\u2167'), (' ', '\xa0'),
+         ('ss', '\xdf'), ('\xdf', 'ss'), (':', '\uff1a'), ('e', '\u2147'), ('i', '\u2170'), ('x', '\u2179'),
+         ('a', '\uff41'), ('s', '\u017f'), ('c', '\u217d'), ('p', '\uff50'), ('w', '\uff57'), ('0', '\uff10')]
+
+
+def nfc(s):
+    return unicodedata.normalize('NFC', s)
+
+
+def confusables(s):
+    """Strings that are NOT `s` under NFC but collapse onto it under NFKC / NFKD / casefold / strip."""
+    out = []
+    for a, b in _FOLD:
+        if a in s:
+            out.append(s.replace(a, b, 1))
+            out.append(s.replace(a, b))
+    out.append(''.join(chr(ord(c) + 0xFEE0) if '!' <= c <= '~' and c != ':' else c for c in s))
+    for form in ('NFKC', 'NFKD'):
+        out.append(unicodedata.normalize(form, s))
+    out += [s + ' ', ' ' + s, s + '\xa0', '\u2003' + s, s.casefold(), s.upper(), s.lower(), s.swapcase(), s + '\u200b']
+    seen, res = set(), []
+    for v in out:
+        if nfc(v) != nfc(s) and v not in seen and '\x00' not in v:
+            seen.add(v)
+            res.append(v)
+    return res
 PASSWORDS = ['secret', 'pw', 'p:w', ':start', 'end:', 'a"b', 'p\\q', 'caf\xe9', '\xfcber:pass', 'pa\U0001F511ss', 'πσ',
              'é', '\xe9', '\xc3\xa9', ' lead', 'trail ', 'x' * 40, 'Secret', 'p,w', 'p=w', 'Å', '\xc5', '0']
-REALMS = ['R', 'wonderland', 'My Realm', 'caf\xe9', 're:alm', 'r\U0001F600x', 'Ωmega', 'a,b=c', "it's", 'x' * 30, 'earth ']
+REALMS = ['R', 'wonderland', 'My Realm', 'caf\xe9', 're:alm', 'r\U0001F600x', 'Ωmega', 'a,b=c', "it's", 'x' * 30, 'earth ',
+          '\ufb01rm\xb2', 'cafe\u0301', '\xb5\u2167']
 CHARSETS = ['utf-8', 'utf-8', 'UTF-8', 'utf8', 'iso-8859-1', 'ISO-8859-1', 'latin-1', 'ascii']
 KEYS = ['a565c27146791cfb', 'k', 'key:with:colons', 'cl\xe9', 'K' * 33, '\U0001F511']
 METHODS = ['GET', 'GET', 'POST', 'PUT', 'HEAD', 'DELETE']
@@ -252,6 +297,19 @@ def gen_cfg(rng, tool):
         # the confusable pair: one user's password is the Latin-1 reading of another password's UTF-8 bytes
         users.append(['conf1', 'caf\xe9'])
         users.append(['conf2', 'caf\xc3\xa9'])
+    if rng.random() < 0.6:
+        # compatibility / canonical twins: the marked credentials, their look-alikes, or both
+        for tw in rng.sample(TWINS, rng.choice([1, 1, 2])):
+            which = rng.choice(['both', 'both', 'special', 'plain', 'crossed'])
+            (su, sp), (pu, pp) = tw
+            if which in ('both', 'special'):
+                users.insert(rng.randrange(len(users) + 1), [su, sp])
+            if which in ('both', 'plain'):
+                users.insert(rng.randrange(len(users) + 1), [pu, pp])
+            if which == 'crossed':
+                users.insert(rng.randrange(len(users) + 1), [pu, sp])
+        if tool == 'basic':
+            users = [[u, p] for u, p in users if ':' not in u]
     seen, uniq = set(), []
     for u, p in users:
         if u not in seen:
@@ -369,8 +427,8 @@ FORGERIES = ['ts+1', 'ts-1', 'ts-old', 'ts-pad', 'hash-flip', 'hash-trunc', 'has
 DIGEST_KINDS = [
     # (name, weight)
     ('ok', 14),
-    ('wrong_password', 6), ('other_users_password', 3), ('unknown_user', 3), ('empty_password_user', 2),
-    ('client_other_realm', 2), ('method_mismatch', 3), ('body_mismatch', 1),
+    ('wrong_password', 6), ('other_users_password', 3), ('unknown_user', 3), ('confusable_user', 5),
+    ('empty_password_user', 2), ('client_other_realm', 2), ('method_mismatch', 3), ('body_mismatch', 1),
     ('nonce_forged', 10), ('nonce_other_realm_claimed', 2), ('nonce_stale', 6), ('nonce_stale_wrong_password', 2), ('nonce_future', 1),
     ('tamper_response', 6), ('tamper_uri', 2), ('tamper_nc', 2), ('tamper_cnonce', 2), ('tamper_qop', 2),
     ('tamper_algorithm', 2), ('tamper_username', 3), ('tamper_realm_field', 2),
@@ -421,6 +479,14 @@ def gen_digest_case(rng, cfg, world):
             pw_used, realm_used = 'pw', rng.choice(['elsewhere', cfg['realm']])
         if user_used in [u for u, _ in cfg['users']]:
             user_used = 'mallory2'
+    elif kind == 'confusable_user':
+        # a user name that is a stored one only under NFKC / NFD / casefold / strip: digest compares names as sent
+        alts = confusables(user) + [unicodedata.normalize('NFD', user), unicodedata.normalize('NFC', user)]
+        alts = [a for a in alts if a != user and a not in [u for u, _ in cfg['users']]]
+        if alts:
+            user_used = rng.choice(alts)
+        else:
+            user_used = user + '\u200b'
     elif kind == 'empty_password_user':
         empties = [u for u, p in cfg['users'] if p == '']
         if empties:
@@ -739,7 +805,8 @@ def gen_digest_case(rng, cfg, world):
 
 BASIC_KINDS = [
     ('ok', 14), ('wrong_password', 8), ('other_users_password', 4), ('unknown_user', 4), ('empty_password_user', 4),
-    ('empty_password_sent', 2), ('nfd', 3), ('colon_user', 2), ('no_colon', 3), ('wire_other_charset', 4),
+    ('empty_password_sent', 2), ('nfd', 6), ('confusable_password', 10), ('confusable_user', 6), ('twin_mix', 5),
+    ('fullwidth_colon', 4), ('colon_user', 2), ('no_colon', 3), ('wire_other_charset', 4),
     ('scheme', 8), ('no_header', 1), ('b64_break', 10), ('b64_junk', 5), ('spacing', 3), ('raw_bytes', 3),
 ]
 
@@ -749,6 +816,12 @@ def gen_basic_case(rng, cfg, world):
     server_codec = CODEC[cfg['charset'].lower()]
     valid_users = [(u, p) for u, p in cfg['users'] if p != '' and ':' not in u]
     user, pw = rng.choice(valid_users) if valid_users else ('ghost', 'pw')
+    if kind in ('nfd', 'confusable_password', 'confusable_user', 'twin_mix', 'ok') and rng.random() < 0.6:
+        # prefer credentials on which the normal forms differ
+        marked = [(u, p) for u, p in valid_users
+                  if any(unicodedata.normalize(f, u + p) != u + p for f in ('NFD', 'NFKC'))]
+        if marked:
+            user, pw = rng.choice(marked)
     now = 1700000000.0
     conforming, wellformed = True, True
     enc = {'utf-8': 'utf-8', 'latin-1': 'latin-1', 'ascii': 'utf-8'}[server_codec]
@@ -773,8 +846,30 @@ def gen_basic_case(rng, cfg, world):
     elif kind == 'empty_password_sent':
         pw = ''
     elif kind == 'nfd':
-        user, pw = unicodedata.normalize('NFD', user), unicodedata.normalize('NFD', pw)
-        conforming = False
+        # canonically equivalent spelling of the same credentials: NFC (and only NFC) makes them match
+        form = rng.choice(['NFD', 'NFD', 'mixed'])
+        if form == 'NFD':
+            user, pw = unicodedata.normalize('NFD', user), unicodedata.normalize('NFD', pw)
+        else:
+            user, pw = unicodedata.normalize('NFD', user), pw
+    elif kind == 'confusable_password':
+        alts = confusables(pw)
+        if alts:
+            pw = rng.choice(alts)
+        else:
+            pw = pw + '\u200b'
+    elif kind == 'confusable_user':
+        alts = [a for a in confusables(user) if ':' not in a]
+        user = rng.choice(alts) if alts else user + '\u200b'
+    elif kind == 'twin_mix':
+        # one twin's user with the other twin's password (or the other twin altogether, if it is not stored)
+        tw = rng.choice(TWINS)
+        a, b = rng.choice([(tw[0], tw[1]), (tw[1], tw[0])])
+        user, pw = rng.choice([(a[0], b[1]), (b[0], b[1]), (a[0], a[1])])
+        if ':' in user:
+            user = user.replace(':', '')
+    elif kind == 'fullwidth_colon':
+        user, pw = user.replace(':', ''), pw.replace(':', '')
     elif kind == 'colon_user':
         cu = [(u, p) for u, p in cfg['users'] if ':' in u]
         if cu:
@@ -786,6 +881,9 @@ def gen_basic_case(rng, cfg, world):
         enc = 'latin-1' if enc == 'utf-8' else 'utf-8'
         conforming = False
     cred = user + ':' + pw
+    if kind == 'fullwidth_colon':
+        cred = user + rng.choice(['\uff1a', '\ufe55', '\ua789', '\u02d0']) + pw      # no ASCII colon anywhere
+        wellformed, conforming = None, False
     if kind == 'no_colon':
         cred = rng.choice([user + pw, user, '', user + ';' + pw])
         wellformed, conforming = None, False
@@ -899,13 +997,15 @@ def gen_basic_case(rng, cfg, world):
             s = None
         if server_codec == 'ascii' and s is None:
             conforming = False
-        if s is not None and unicodedata.normalize('NFC', s) == s and ':' in s:
-            u_, p_ = s.split(':', 1)
-            if p_ != '' and store.get(u_) == p_:
-                expect = u_
+        if s is not None:
+            t = unicodedata.normalize('NFC', s)
+            if ':' in t:
+                u_, p_ = t.split(':', 1)
+                if p_ != '' and store.get(u_) == p_:
+                    expect = u_
     return {'cfg': cfg, 'kind': kind, 'method': rng.choice(METHODS), 'body': '', 'now': now, 'header': header,
             'raws': [r.decode('latin-1') for r in raws], 'conforming': conforming, 'wellformed': wellformed,
-            'expect_login': expect}
+            'expect_login': expect, 'sent': cred if text is not None and kind.split(':')[0] not in ('scheme',) else None}
 
 
 def gen_batch(rng, world):
